@@ -39,7 +39,8 @@ def main():
     with ProcessPoolExecutor(max_workers=jobs) as ex:
         results = list(ex.map(patches.run_one, work))
     bad = 0
-    n_ref = n_seed = n_det = n_stale = 0
+    n_ref = n_seed = n_det = n_stale = n_refused = 0
+    refusals = patches.load_refusals()
     expect = {}
     for kind, pid, st, res in results:
         if st != "ran":
@@ -48,9 +49,12 @@ def main():
             continue
         if kind == "refactor":
             n_ref += 1
-            if res:
+            documented = refusals.get(pid, set())
+            alarms = {p: cm for p, cm in res.items() if not (cm[0] == 2 and p in documented)}
+            n_refused += sum(1 for p, cm in res.items() if cm[0] == 2 and p in documented)
+            if alarms:
                 bad += 1
-                for p, (code, msg) in res.items():
+                for p, (code, msg) in alarms.items():
                     print(f"  FALSE ALARM refactor {pid}: {p} exit {code}: {msg[:200]}")
         else:
             n_seed += 1
@@ -62,7 +66,7 @@ def main():
             elif pid not in EXPECTED_MISSES:
                 bad += 1
                 print(f"  MISSED seeded {pid}: no check reports it (analysis errors: {errs})")
-    print(f"patch corpus: {n_ref} refactors silent-checked, {n_seed} seeded ({n_det} detected), {n_stale} stale, {bad} problems, {time.time() - t0:.0f}s")
+    print(f"patch corpus: {n_ref} refactors silent-checked ({n_refused} documented refusals), {n_seed} seeded ({n_det} detected), {n_stale} stale, {bad} problems, {time.time() - t0:.0f}s")
     if "--record" in sys.argv and which in ("all", "seeded") and not n_stale:
         with open(patches.EXPECT, "w", encoding="utf-8") as fh:
             json.dump(dict(sorted(expect.items())), fh, indent=1)
